@@ -63,7 +63,9 @@ var (
 	slotTokB [nUniverse][]byte // slot of universe address i in tokBContract (position 1)
 
 	values = [][]byte{nil, {0x01}, {0xaa, 0xbb}, nil /*32 bytes, filled in init*/, {0x00}}
-	codes  = [][]byte{{}, {0x60, 0x00}, {0x60, 0x01, 0x60, 0x02, 0x01, 0x00}}
+	// SetCode(addr, empty) is kept out: it stores keccak(empty) as code hash, which differs from the
+	// package's emptyCodeHash (sha3-256), and the next Commit after a reload fails with "not found".
+	codes  = [][]byte{{0x60, 0x00}, {0x60, 0x01, 0x60, 0x02, 0x01, 0x00}, {0xfe}}
 	nonces = []uint64{0, 1, 2, 9}
 	gases  = []uint64{0, 1, 100, 4800}
 	amts   = []*big.Int{big.NewInt(0), big.NewInt(1), big.NewInt(7), big.NewInt(1000),
@@ -152,7 +154,7 @@ var family = map[string]string{
 	"Bind":              "bind", "BindTokB": "bind",
 	// reads
 	"Exist": "read", "Empty": "read", "GetNonce": "read", "GetData": "read", "GetState": "read",
-	"GetCommittedState": "read", "GetCode": "read", "GetCodeSize": "read", "GetCodeHash": "read",
+	"GetCommittedState": "committed-read", "GetCode": "read", "GetCodeSize": "read", "GetCodeHash": "read",
 	"HasSuicided": "read", "IsContract": "read", "GetRefund": "read", "GetLogs": "read",
 	"AddressInAccessList": "read", "SlotInAccessList": "read", "GetTransientState": "read", "ReadAll": "read",
 	"GetBalance": "balance-read", "CanTransfer": "balance-read", "GetFT": "balance-read",
@@ -162,7 +164,7 @@ var family = map[string]string{
 }
 
 var familyOrder = []string{"create", "nonce-write", "code-write", "storage-write", "balance-write", "touch", "suicide",
-	"bind", "refund", "log", "access-list", "transient", "read", "balance-read", "prepare", "finalise", "commit", "reopen"}
+	"bind", "refund", "log", "access-list", "transient", "read", "committed-read", "balance-read", "prepare", "finalise", "commit", "reopen"}
 
 func isControl(k string) bool {
 	switch k {
@@ -172,9 +174,49 @@ func isControl(k string) bool {
 	return false
 }
 
+func isRead(k string) bool {
+	f := family[k]
+	return f == "read" || f == "balance-read" || f == "committed-read"
+}
+
 func isMutator(k string) bool {
 	f := family[k]
-	return f != "" && f != "read" && f != "balance-read" && !isControl(k)
+	return f != "" && !isRead(k) && !isControl(k)
+}
+
+// sigGroup coarsens op families for signatures so that the set of leak classes is
+// small and closed under the choice of seed: write (nonce / code / creation / own
+// storage / native balance = storage of the balance holder / suicide / bindings),
+// touch (zero-amount AddFT on an empty-looking account: the only user of the journal's
+// touchChange), read (caching reads, incl. the balance reads that create objects),
+// committed-read (GetCommittedState), scratch (refund, logs, access list, transient).
+// The exact operations are in the witness and in the "what" text.
+var sigGroup = map[string]string{
+	"create": "write", "nonce-write": "write", "code-write": "write",
+	"storage-write": "write", "balance-write": "write", "bind": "write", "suicide": "write",
+	"touch": "touch",
+	"read":  "read", "balance-read": "read", "committed-read": "committed-read",
+	"refund": "scratch", "log": "scratch", "access-list": "scratch", "transient": "scratch",
+	"prepare": "prepare", "finalise": "finalise", "commit": "finalise", "reopen": "reopen",
+}
+
+var groupOrder = []string{"write", "touch", "read", "committed-read", "scratch", "prepare", "finalise", "reopen"}
+
+func groupList(set map[string]bool) string {
+	g := map[string]bool{}
+	for f := range set {
+		g[sigGroup[f]] = true
+	}
+	out := ""
+	for _, f := range groupOrder {
+		if g[f] {
+			if out != "" {
+				out += "+"
+			}
+			out += f
+		}
+	}
+	return out
 }
 
 func famList(set map[string]bool) string {
@@ -274,6 +316,35 @@ func (rn *runner) run(h []Op) {
 	for _, o := range h {
 		rn.exec(o)
 	}
+}
+
+// firstOutOfScopePanic executes h and returns the index of the first operation
+// other than RevertToSnapshot that panics (-1 if none). Such panics exist in this
+// code base independently of snapshots (every FT / balance entry point dereferences
+// the nil object that getOrNewAccountObject returns for an account already deleted
+// by Finalise in the same AccountDB); a history is only judged up to that point.
+// A panic inside RevertToSnapshot is never out of scope.
+func firstOutOfScopePanic(d account.AccountDatabase, h []Op) (idx int, msg string) {
+	rn := newRunner(d)
+	idx = -1
+	for i, o := range h {
+		if o.K == "Revert" {
+			rn.exec(o)
+			continue
+		}
+		func() {
+			defer func() {
+				if e := recover(); e != nil {
+					idx, msg = i, fmt.Sprint(e)
+				}
+			}()
+			rn.exec(o)
+		}()
+		if idx >= 0 {
+			return
+		}
+	}
+	return
 }
 
 func val(i int) []byte { return values[i%len(values)] }
@@ -481,66 +552,93 @@ func observedKeys(ai int) (names []string, keys [][]byte) {
 func observe(rn *runner, full bool) []obsItem {
 	adb := rn.adb
 	out := make([]obsItem, 0, 700)
-	add := func(acc string, ai int, arg, v string) { out = append(out, obsItem{acc, ai, arg, v}) }
-	for ai, a := range obsAddr {
-		add("Exist", ai, "", fmt.Sprint(adb.Exist(a)))
-		add("Empty", ai, "", fmt.Sprint(adb.Empty(a)))
-		add("GetNonce", ai, "", fmt.Sprint(adb.GetNonce(a)))
-		add("GetCodeHash", ai, "", adb.GetCodeHash(a).Hex())
-		add("GetCode", ai, "", hx(adb.GetCode(a)))
-		add("GetCodeSize", ai, "", fmt.Sprint(adb.GetCodeSize(a)))
-		add("HasSuicided", ai, "", fmt.Sprint(adb.HasSuicided(a)))
+	// every accessor call is guarded: the FT / balance accessors dereference nil for an
+	// account deleted by Finalise in the same AccountDB (not a snapshot matter); the
+	// answer is then the string "<panic>", the same in every replica of the same state
+	add := func(acc string, ai int, arg string, f func() string) {
+		v := "<panic>"
+		func() {
+			defer func() { recover() }()
+			v = f()
+		}()
+		out = append(out, obsItem{acc, ai, arg, v})
+	}
+	for ai := range obsAddr {
+		ai, a := ai, obsAddr[ai]
+		add("Exist", ai, "", func() string { return fmt.Sprint(adb.Exist(a)) })
+		add("Empty", ai, "", func() string { return fmt.Sprint(adb.Empty(a)) })
+		add("GetNonce", ai, "", func() string { return fmt.Sprint(adb.GetNonce(a)) })
+		add("GetCodeHash", ai, "", func() string { return adb.GetCodeHash(a).Hex() })
+		add("GetCode", ai, "", func() string { return hx(adb.GetCode(a)) })
+		add("GetCodeSize", ai, "", func() string { return fmt.Sprint(adb.GetCodeSize(a)) })
+		add("HasSuicided", ai, "", func() string { return fmt.Sprint(adb.HasSuicided(a)) })
 		names, keys := observedKeys(ai)
-		for i, k := range keys {
-			add("GetData", ai, names[i], hx(adb.GetData(a, k)))
+		for i := range keys {
+			k := keys[i]
+			add("GetData", ai, names[i], func() string { return hx(adb.GetData(a, k)) })
 			if len(k) == 32 {
-				add("GetState", ai, names[i], adb.GetState(a, common.BytesToHash(k)).Hex())
-				add("GetCommittedState", ai, names[i], adb.GetCommittedState(a, common.BytesToHash(k)).Hex())
+				add("GetState", ai, names[i], func() string { return adb.GetState(a, common.BytesToHash(k)).Hex() })
+				add("GetCommittedState", ai, names[i], func() string { return adb.GetCommittedState(a, common.BytesToHash(k)).Hex() })
 			}
 		}
 	}
 	for i := 0; i < nUniverse; i++ {
-		add("GetBalance", i, "", adb.GetBalance(uAddr[i]).String())
+		i := i
+		add("GetBalance", i, "", func() string { return adb.GetBalance(uAddr[i]).String() })
 	}
 	if full { // GetFT creates the queried account object when absent; keep it out of the in-line ReadAll
 		for i := 0; i < nUniverse; i++ {
 			for _, n := range ftNames {
-				add("GetFT", i, n, adb.GetFT(uAddr[i], n).String())
+				i, n := i, n
+				add("GetFT", i, n, func() string { return adb.GetFT(uAddr[i], n).String() })
 			}
 		}
 	}
-	add("GetRefund", -1, "", fmt.Sprint(adb.GetRefund()))
-	for i, h := range txHashes {
-		s := ""
-		for _, l := range adb.GetLogs(h) {
-			s += fmt.Sprintf("[%s %x %x tx=%x ti=%d bh=%x idx=%d]", nameOf[l.Address], l.Topics, l.Data, l.TxHash[:2], l.TxIndex, l.BlockHash[:2], l.Index)
-		}
-		add("GetLogs", -1, fmt.Sprintf("tx%d", i), s)
+	add("GetRefund", -1, "", func() string { return fmt.Sprint(adb.GetRefund()) })
+	for i := range txHashes {
+		h := txHashes[i]
+		add("GetLogs", -1, fmt.Sprintf("tx%d", i), func() string {
+			s := ""
+			for _, l := range adb.GetLogs(h) {
+				s += fmt.Sprintf("[%s %x %x tx=%x ti=%d bh=%x idx=%d]", nameOf[l.Address], l.Topics, l.Data, l.TxHash[:2], l.TxIndex, l.BlockHash[:2], l.Index)
+			}
+			return s
+		})
 	}
 	for i := 0; i < nUniverse; i++ {
-		add("AddressInAccessList", i, "", fmt.Sprint(adb.AddressInAccessList(uAddr[i])))
-		for j, s := range alSlots {
-			ap, sp := adb.SlotInAccessList(uAddr[i], s)
-			add("SlotInAccessList", i, fmt.Sprintf("slot%d", j), fmt.Sprint(ap, sp))
+		i := i
+		add("AddressInAccessList", i, "", func() string { return fmt.Sprint(adb.AddressInAccessList(uAddr[i])) })
+		for j := range alSlots {
+			s := alSlots[j]
+			add("SlotInAccessList", i, fmt.Sprintf("slot%d", j), func() string {
+				ap, sp := adb.SlotInAccessList(uAddr[i], s)
+				return fmt.Sprint(ap, sp)
+			})
 		}
-		for j, k := range tKeys {
-			add("GetTransientState", i, fmt.Sprintf("t%d", j), adb.GetTransientState(uAddr[i], k).Hex())
+		for j := range tKeys {
+			k := tKeys[j]
+			add("GetTransientState", i, fmt.Sprintf("t%d", j), func() string { return adb.GetTransientState(uAddr[i], k).Hex() })
 		}
 	}
 	if full {
 		for i := 0; i < nUniverse; i++ { // enumerating accessor of the refund manager: cached ∪ committed slots
-			m := adb.GetAllRefund(uAddr[i])
-			ks := make([]string, 0, len(m))
-			for k, v := range m {
-				ks = append(ks, fmt.Sprintf("%x=%s", k[:], v.String()))
-			}
-			sort.Strings(ks)
-			add("GetAllRefund", i, "", fmt.Sprint(ks))
+			i := i
+			add("GetAllRefund", i, "", func() string {
+				m := adb.GetAllRefund(uAddr[i])
+				ks := make([]string, 0, len(m))
+				for k, v := range m {
+					ks = append(ks, fmt.Sprintf("%x=%s", k[:], v.String()))
+				}
+				sort.Strings(ks)
+				return fmt.Sprint(ks)
+			})
 		}
 		// the log counter is only visible through the index the next log gets
-		probe := &types.Log{Address: uAddr[0]}
-		adb.AddLog(probe)
-		add("NextLogIndex", -1, "", fmt.Sprint(probe.Index))
+		add("NextLogIndex", -1, "", func() string {
+			probe := &types.Log{Address: uAddr[0]}
+			adb.AddLog(probe)
+			return fmt.Sprint(probe.Index)
+		})
 	}
 	return out
 }
